@@ -316,6 +316,23 @@ func jsonable(x any) any {
 			o[fmt.Sprint(k)] = jsonable(e)
 		}
 		return o
+	case map[string]any:
+		o := map[string]any{}
+		for k, e := range y {
+			o[k] = jsonable(e)
+		}
+		return o
+	case []any:
+		o := make([]any, len(y))
+		for i := range y {
+			o[i] = jsonable(y[i])
+		}
+		return o
+	case json.Number:
+		// the JSON-native number of an untyped value is a float64: any other Go type is a retyped value
+		return map[string]any{"$gotype": "json.Number", "v": string(y)}
+	case int, int8, int16, int32, int64, uint, uint8, uint16, uint32, uint64, float32:
+		return map[string]any{"$gotype": fmt.Sprintf("%T", x), "v": fmt.Sprint(x)}
 	case float64:
 		if math.IsNaN(y) || math.IsInf(y, 0) {
 			return fmt.Sprint(y)
